@@ -106,10 +106,16 @@ class Sched:
             return self.state.get(obj) in ('done', None)
         return True
 
-    def wait_all_parked(self, tids):
+    def wait_all_parked(self, tids, patience=40):
+        import time
+        t0 = time.time()
         with self.cv:
             while self.running is not None or any(self.state.get(t) in ('new', 'running') for t in tids):
                 self.cv.wait(timeout=5)
+                if time.time() - t0 > patience:
+                    # a thread is blocked (or spinning) somewhere outside every scheduling point: the run cannot go on
+                    who = [t for t in tids if self.state.get(t) in ('new', 'running')]
+                    raise Deadlock('threads %r neither finish nor reach a scheduling point' % (who or [self.running],))
 
     def step(self, t):
         with self.cv:
@@ -345,5 +351,21 @@ def user_thread(S, tid, body):
         finally:
             S.finish()
     S.add(tid)
-    t = threading.Thread(target=run, name='user%d' % tid, daemon=True)
+
+    class UThread(threading.Thread):
+        # code under test that waits for this thread (join) does so as a schedulable action, like for networking threads
+        sched_tid = tid
+
+        def join(self, timeout=None):
+            if S.me() is not None:
+                S.before('join', tid)
+                S.emit('join', tid)
+            else:
+                threading.Thread.join(self, timeout)
+
+        def is_alive(self):
+            if S.me() is not None:
+                return S.state.get(tid) not in ('done', None)
+            return threading.Thread.is_alive(self)
+    t = UThread(target=run, name='user%d' % tid, daemon=True)
     return t
